@@ -40,7 +40,7 @@ var allCacheW = []wk{{model.CSet, 10}, {model.CSetDefault, 2}, {model.CSetForeve
 	{model.CGetAndDelete, 7}, {model.CDelete, 6}, {model.CDeleteExpired, 9}, {model.CRange, 3}, {model.CItems, 2}, {model.CClear, 5},
 	{model.CCount, 3}, {model.CDefaultExp, 1}, {model.CSetDefaultExp, 1}}
 
-var defaultHashers = []string{"", "", "", "const", "samebucket", "sameh2", "identity", "lowbits"}
+var defaultHashers = []string{"", "", "", "const", "samebucket", "sameh2", "identity", "lowbits", "split", "split"}
 
 var profiles = map[string]*profile{
 	"C02": {prop: "C02", kinds: []string{"cache", "cacheof"}, hotMax: 3, thrMin: 2, thrMax: 3, opsMax: 3, cacheW: allCacheW, fillBias: "threshold"},
@@ -209,9 +209,11 @@ func genProgram(rt *rapid.T, pf *profile) *Program {
 		case 3, 4:
 			p.Mode = "shrink"
 			p.Fill = 1
-			p.Keep = irange(rt, 0, 1, "keep")
-			if p.Hot < 2 {
-				p.Hot = 2
+			// sizes that leave the table just above the shrink threshold until a hot key is deleted
+			p.Hot = 2
+			p.Keep = 0
+			if s := p.Spec.Kind; s == "mapof" || s == "cacheof" {
+				p.Keep = irange(rt, 0, 1, "keep")
 			}
 		}
 	}
